@@ -6,6 +6,7 @@ right (even length or unit stride).
 import Mahotas.Model.C17Mem
 import Mahotas.Proofs.C17
 import Mahotas.Proofs.C17Energy
+import Mahotas.Proofs.C17Odd
 import Mathlib.Tactic.Ring
 import Mathlib.Tactic.Linarith
 namespace Mahotas.C17.Mem
@@ -362,6 +363,34 @@ theorem contig_inj (N0 N1 : Nat) : (View.contig N0 N1).Inj := by
   refine ⟨by omega, ?_⟩
   rw [hy] at h
   omega
+
+/-- `ihaar2` reads only the pixels of the image -/
+theorem ihaar2_congr (pe : Bool) (N0 N1 : Nat) (f f' : Im K) (h : ∀ y x, y < N0 → x < N1 → f y x = f' y x)
+    (y x : Nat) : ihaar2 pe N0 N1 f y x = ihaar2 pe N0 N1 f' y x := by
+  have core : colsPass ihaarRow N0 (rowsPass ihaarRow N1 f) y x
+      = colsPass ihaarRow N0 (rowsPass ihaarRow N1 f') y x := by
+    show ihaarRow N0 (fun k => ihaarRow N1 (f k) x) y = ihaarRow N0 (fun k => ihaarRow N1 (f' k) x) y
+    exact ihaarRow_congr N0 _ _ (fun k hk => ihaarRow_congr N1 _ _ (fun p hp => h k p hk hp) x) y
+  cases pe with
+  | false => exact core
+  | true =>
+    show colsPass ihaarRow N0 (rowsPass ihaarRow N1 f) y x * two
+      = colsPass ihaarRow N0 (rowsPass ihaarRow N1 f') y x * two
+    rw [core]
+
+/-- `haar` then `ihaar`, both in place on the same injective view with both pointers right: the view ends up holding
+    the original image on `[0, 2⌊N0/2⌋) × [0, 2⌊N1/2⌋)` and `0` in the last row / column of an odd side -/
+theorem haar_ihaar_mem (h2 : (2 : K) ≠ 0) (pe : Bool) (cs cs' : List K) (v : View) (hinj : v.Inj)
+    (H1 : HighOK v.s1 v.N1) (H0 : HighOK v.s0 v.N0) (m : Memory K) (y x : Nat) (hy : y < v.N0) (hx : x < v.N1) :
+    wrapperBody .ihaar pe cs' v (wrapperBody .haar pe cs v m) (v.addr y x)
+      = if y < 2 * (v.N0 / 2) ∧ x < 2 * (v.N1 / 2) then m (v.addr y x) else 0 := by
+  obtain ⟨a1, _⟩ := wrapperBody_spec .haar pe cs v hinj H1 H0 m
+  obtain ⟨a2, _⟩ := wrapperBody_spec .ihaar pe cs' v hinj H1 H0 (wrapperBody .haar pe cs v m)
+  rw [a2 y x hy hx]
+  show ihaar2 pe v.N0 v.N1 (v.read (wrapperBody .haar pe cs v m)) y x = _
+  rw [ihaar2_congr pe v.N0 v.N1 (v.read (wrapperBody .haar pe cs v m)) (haar2 pe v.N0 v.N1 (v.read m))
+    (fun y' x' hy' hx' => a1 y' x' hy' hx') y x]
+  exact ihaar2_haar2_any h2 pe v.N0 v.N1 (v.read m) y x
 
 end Pass
 
